@@ -19,7 +19,7 @@ Proof. unfold unm, via. cbn [ptr_base ptr_depth wrap_ptr]. destruct (unm_base tr
 
 Lemma unm_base_raw tr : unm_base tr YRaw = UOk (GvRaw (Some tr)).
 Proof. destruct tr; reflexivity. Qed.
-Lemma unm_base_dyn tr : unm_base tr YDyn = UOk (GvDyn (Some (dyn_norm tr))).
+Lemma unm_base_dyn tr : unm_base tr YDyn = UOk (GvDyn (Some tr)).
 Proof. destruct tr; reflexivity. Qed.
 Lemma unm_base_iface tr : unm_base tr YIface = UOk (GvIface (Some (value_of tr))).
 Proof. destruct tr; reflexivity. Qed.
@@ -82,48 +82,17 @@ Proof.
   repeat split. exact Ht.
 Qed.
 
-(* ---------- dynbt's normal form ---------- *)
-Lemma dyn_norm_tag t : tag_id (dyn_norm t) = tag_id t.
-Proof. destruct t; reflexivity. Qed.
-
+(* ---------- list helpers ---------- *)
 Lemma forallb_map {A B} (f : A -> B) (p : B -> bool) l : forallb p (map f l) = forallb (fun x => p (f x)) l.
 Proof. induction l as [|x l IH]; cbn [map forallb]; [reflexivity|]. now rewrite IH. Qed.
-Lemma forallb_ext_in {A} (p q : A -> bool) l : Forall (fun x => p x = true -> q x = true) l ->
-  forallb p l = true -> forallb q l = true.
-Proof.
-  induction 1 as [|x l Hx Hl IH]; cbn [forallb]; [auto|]. rewrite !andb_true_iff. intros [H1 H2]. auto.
-Qed.
 Lemma lenN_map {A B} (f : A -> B) l : lenN (map f l) = lenN l.
 Proof. unfold lenN. now rewrite map_length. Qed.
-
-Lemma dyn_norm_wf : forall t, wfb t = true -> wfb (dyn_norm t) = true.
-Proof.
-  induction t as [v|v|v|v|b|b|l|s|eid l IH|l IH|l|l] using tag_ind'; intros W; cbn [dyn_norm]; auto.
-  - cbn [wfb] in *. rewrite !andb_true_iff in *. destruct W as [[[H1 H2] H3] H4].
-    rewrite lenN_map, forallb_map. destruct l as [|x l].
-    + repeat split; auto.
-    + repeat split; auto.
-      revert H4. apply forallb_ext_in. rewrite Forall_forall in *. intros y Hy.
-      rewrite !andb_true_iff. intros [Ha Hb]. rewrite dyn_norm_tag. split; auto.
-  - cbn [wfb] in *. rewrite forallb_map. revert W. apply forallb_ext_in.
-    rewrite Forall_forall in *. intros kv Hkv. cbn [fst snd]. rewrite !andb_true_iff. intros [Ha Hb]. split; auto.
-Qed.
-
-Lemma dyn_norm_idem : forall t, dyn_norm (dyn_norm t) = dyn_norm t.
-Proof.
-  induction t as [v|v|v|v|b|b|l|s|eid l IH|l IH|l|l] using tag_ind'; cbn [dyn_norm]; auto.
-  - f_equal.
-    + destruct l; reflexivity.
-    + rewrite map_map. apply map_ext_in. rewrite Forall_forall in IH. auto.
-  - f_equal. rewrite map_map. apply map_ext_in. rewrite Forall_forall in IH. intros kv Hkv. cbn [fst snd].
-    f_equal. auto.
-Qed.
 
 Lemma rt_dyn : rt_ok YDyn.
 Proof.
   intros v tr Ht He. destruct v as [| | | | | | | | | | |o]; try discriminate. destruct o as [t0|]; [|discriminate].
   cbn [enc] in He. injection He as <-. rewrite unm_nonptr by reflexivity. rewrite unm_base_dyn.
-  cbn [has_type canon get_tag] in *. rewrite dyn_norm_idem, dyn_norm_tag. repeat split. now apply dyn_norm_wf.
+  repeat split. exact Ht.
 Qed.
 
 (* ---------- pointers ---------- *)
@@ -513,21 +482,19 @@ Theorem roundtrip_bytes f byval name t v bs :
   rt_ok t -> has_type t v = true -> all_bytesb name = true ->
   marshal f byval name t v = MOk bs ->
   exists tr, wf tr /\ bs = doc f name tr /\ tag_id tr = get_tag t v /\
-             unmarshal f t bs = DOk (root_name f name) (canon t v) [].
+             (nest_ok tr -> unmarshal f t bs = DOk (root_name f name) (canon t v) []).
 Proof.
   intros Hrt Ht Hn Hm. unfold marshal in Hm.
   assert (Hm' : (if match f with File => name_too_long name | Net => false end then MErr
                  else match enc t v with TOk tr => MOk (doc f name tr) | TErr => MErr | TPanic => MPanic end) = MOk bs).
-  { destruct t; try exact Hm. destruct v as [| | | | | | | | |o| |]; try exact Hm. destruct o; [exact Hm|].
-    destruct byval; discriminate. }
+  { destruct t; try exact Hm. destruct v as [| | | | | | | | |o| |]; try exact Hm. destruct o; [exact Hm|discriminate]. }
   clear Hm. destruct (enc t v) as [tr| |] eqn:He.
   2,3: destruct f; try destruct (name_too_long name); discriminate.
   destruct (Hrt v tr Ht He) as (W & T & U).
   assert (Hbs : bs = doc f name tr /\ (f = File -> name_too_long name = false)).
   { destruct f; [destruct (name_too_long name) eqn:E; [discriminate|]|]; injection Hm' as <-; split; auto; discriminate. }
-  destruct Hbs as [-> Hnl]. exists tr. repeat split; auto.
+  destruct Hbs as [-> Hnl]. exists tr. repeat split; auto. intros Hd.
   destruct f.
-  - rewrite unmarshal_doc; [rewrite U; reflexivity|exact W|]. apply name_ok_of; auto.
-  - (* network format: the name is not written; any name gives the same document *)
-    change (doc Net name tr) with (doc Net [] tr). rewrite unmarshal_doc; [rewrite U; reflexivity|exact W|reflexivity].
+  - rewrite unmarshal_doc; [rewrite U; reflexivity|exact W|exact Hd|]. apply name_ok_of; auto.
+  - change (doc Net name tr) with (doc Net [] tr). rewrite unmarshal_doc; [rewrite U; reflexivity|exact W|exact Hd|reflexivity].
 Qed.
